@@ -17,6 +17,7 @@ nothing else; a caller's file object is left alone; the exception is not swallow
 What stays an assumption: the `with` statement calls `__exit__` exactly once on every exit of its
 body, and `open(file).__exit__` closes the file and does not suppress.
 -/
+set_option linter.unusedSimpArgs false
 namespace Parse
 open Py
 
@@ -108,5 +109,221 @@ theorem opener_exit_eq_closeEv (own : Bool) (openErr : Option Err) (exc : Option
   have hiw : Gen.iterationInsideWith = true := by decide
   rw [opener_exit own openErr exc hx w]
   simp [closeEv, hiw]
+
+/-! ### the body of `parse` with the `with opener() as fileobj:` statement spelled out
+
+`parseAutoW` is `parseAuto` of GenProto.lean with every `closeEv` replaced by what the statement
+does: `cm = opener()`; `cm.__enter__()`; on every exit of the block `cm.__exit__(…)` – through
+contextlib's protocol over the opener automaton – and the exception re-raised unless `__exit__`
+says otherwise.  Driving it gives the same event trace (`driveW_eq_parseTrace`), so `closeEv` is no
+longer an ingredient of the derivation, only a name for its result. -/
+
+variable {α γ : Type}
+
+/-- suspended at `yield groups`, inside the block: the opener's generator object and the rest of
+what `_find_iter` will do -/
+inductive PStW (γ : Type) where
+  | start
+  | at (g : Gen.GState OSt) (acts : List (FAct γ))
+
+/-- the block is left with `exc` in flight (`none`: normally): `__exit__` decides what comes out -/
+def leaveWith (own : Bool) (openErr : Option Err) (g : Gen.GState OSt) (exc : Option Gen.Exc)
+    (w : List (TEv ρ)) : Gen.Outcome × PStW γ × List (TEv ρ) :=
+  match cmExit (openerAuto ρ own openErr) g exc w with
+  | (.ok, g', w') =>
+    (match exc with
+     | none => (.ret 0, .at g' [], w')            -- the generator function ends
+     | some x => (.raise x, .at g' [], w'))       -- not suppressed: re-raised
+  | (.suppressed, g', w') => (.ret 0, .at g' [], w')
+  | (.raised e, g', w') => (.raise e, .at g' [], w')
+
+def advanceW (cast : γ → Except Err ρ) (own : Bool) (openErr : Option Err) (g : Gen.GState OSt) :
+    List (FAct γ) → List (TEv ρ) → Gen.Outcome × PStW γ × List (TEv ρ)
+  | [], w => leaveWith own openErr g none w
+  | .read :: as, w => advanceW cast own openErr g as (w ++ [.read])
+  | .fail e :: _, w => leaveWith own openErr g (some (excOf e)) w
+  | .item v :: as, w =>
+    match cast v with
+    | .error e => leaveWith own openErr g (some (excOf e)) w
+    | .ok v' => (.yield 0, .at g as, w ++ [.yielded v'])
+
+section bodyW
+variable {κ ν : Type} [DecidableEq κ]
+
+def parseAutoW (s : Src α) (cast : CastArgE κ ν) (vv : ValView ν) (scan : Scanner α (List (κ × ν))) :
+    Gen.Auto (List (TEv (List (κ × ν)))) (PStW (List (κ × ν))) where
+  step := fun st inp w =>
+    match st, inp with
+    | .start, .send _ =>
+      if !(s.own || s.fileObj) then (.raise (excOf .typeError), .at .done [], w) else
+      match cast with
+      | .invalid => (.raise (excOf .typeError), .at .done [], w)
+      | cast =>
+        if !s.patternOk then (.raise (excOf .typeError), .at .done [], w) else
+        -- with opener() as fileobj:
+        match cmEnter (openerAuto _ s.own s.openFails) (.unstarted .start) w with
+        | (.ok, g, w') => advanceW (applyCastE vv cast) s.own s.openFails g (findIterActs s.kindOk scan s.chunk s.reads) w'
+        | (.raised e, g, w') => (.raise e, .at g [], w')
+        | (.suppressed, g, w') => (.raise rtErr, .at g [], w')
+    | .start, .throw e => (.raise e, .at .done [], w)
+    | .at g acts, .send _ => advanceW (applyCastE vv cast) s.own s.openFails g acts w
+    | .at g _, .throw e => leaveWith s.own s.openFails g (some e) w
+
+theorem leaveWith_inside (own : Bool) (openErr : Option Err) (exc : Option Gen.Exc)
+    (hx : ∀ x, exc = some x → x.isStopIteration = false) (w : List (TEv ρ)) :
+    (leaveWith own openErr (.suspended .inside) exc w : Gen.Outcome × PStW γ × List (TEv ρ))
+      = (match exc with | none => .ret 0 | some x => .raise x, .at .done [], w ++ closeEv ρ own) := by
+  have hiw : Gen.iterationInsideWith = true := by decide
+  unfold leaveWith
+  rw [opener_exit own openErr exc hx w]
+  cases exc <;> simp [closeEv, hiw]
+
+theorem driveW_suspended (s : Src α) (cast : CastArgE κ ν) (vv : ValView ν) (scan : Scanner α (List (κ × ν))) :
+    ∀ (acts : List (FAct (List (κ × ν)))) (fuel : Nat) (lim : Option Nat) (w : List (TEv (List (κ × ν)))),
+      acts.length < fuel → lim ≠ some 0 →
+      drive (Gen.genObj .generator (parseAutoW s cast vv scan)) fuel lim (.suspended (.at (.suspended .inside) acts)) w
+        = w ++ consume (applyCastE vv cast) s.own lim acts := by
+  have hS : ∀ e : Err, ∀ x, some (excOf e) = some x → x.isStopIteration = false := by
+    intro e x h; cases h; exact (excOf_not_special e).1
+  have hN : ∀ x, (none : Option Gen.Exc) = some x → x.isStopIteration = false := by intro x h; cases h
+  have hG : ∀ x, some Gen.genExit = some x → x.isStopIteration = false := by intro x h; cases h; rfl
+  intro acts
+  induction acts with
+  | nil =>
+    intro fuel lim w hf hl
+    obtain ⟨f, rfl⟩ : ∃ f, fuel = f + 1 := ⟨fuel - 1, by omega⟩
+    simp [drive, hl, Gen.genObj, Gen.genStep, parseAutoW, advanceW, leaveWith_inside _ _ _ hN, Gen.settle, consume]
+  | cons a as ih =>
+    intro fuel lim w hf hl
+    obtain ⟨f, rfl⟩ : ∃ f, fuel = f + 1 := ⟨fuel - 1, by omega⟩
+    simp only [List.length_cons] at hf
+    cases a with
+    | read =>
+      have h1 : drive (Gen.genObj .generator (parseAutoW s cast vv scan)) (f + 1) lim
+            (.suspended (.at (.suspended .inside) (.read :: as))) w
+          = drive (Gen.genObj .generator (parseAutoW s cast vv scan)) (f + 1) lim
+            (.suspended (.at (.suspended .inside) as)) (w ++ [.read]) := by
+        simp [drive, hl, Gen.genObj, Gen.genStep, parseAutoW, advanceW]
+      rw [h1, ih (f + 1) lim (w ++ [TEv.read]) (by omega) hl]
+      simp [consume]
+    | fail e =>
+      simp [drive, hl, Gen.genObj, Gen.genStep, parseAutoW, advanceW, leaveWith_inside _ _ _ (hS e), Gen.settle,
+        consume, pep479_excOf, errOf_excOf]
+    | item v =>
+      cases hc : applyCastE vv cast v with
+      | error e =>
+        simp [drive, hl, Gen.genObj, Gen.genStep, parseAutoW, advanceW, leaveWith_inside _ _ _ (hS e), Gen.settle,
+          consume, hc, pep479_excOf, errOf_excOf]
+      | ok v' =>
+        have h1 : drive (Gen.genObj .generator (parseAutoW s cast vv scan)) (f + 1) lim
+              (.suspended (.at (.suspended .inside) (.item v :: as))) w
+            = drive (Gen.genObj .generator (parseAutoW s cast vv scan)) f (lim.map (· - 1))
+              (.suspended (.at (.suspended .inside) as)) (w ++ [.yielded v']) := by
+          simp [drive, hl, Gen.genObj, Gen.genStep, parseAutoW, advanceW, Gen.settle, hc]
+        rw [h1]
+        cases lim with
+        | none =>
+          rw [Option.map_none, ih f none _ (by omega) (by simp)]
+          simp [consume, hc]
+        | some n =>
+          by_cases hn : n ≤ 1
+          · have hn1 : n = 1 := by
+              have : n ≠ 0 := fun h => hl (by rw [h])
+              omega
+            subst hn1
+            obtain ⟨f', rfl⟩ : ∃ f', f = f' + 1 := ⟨f - 1, by omega⟩
+            have hge : (Gen.genExit).isGenExit = true := rfl
+            simp [drive, Gen.genObj, Gen.genStep, parseAutoW, leaveWith_inside _ _ _ hG, Gen.settleClose, hge, consume, hc]
+          · rw [Option.map_some, ih f (some (n - 1)) _ (by omega) (by simp; omega)]
+            simp [consume, hc, hn]
+
+end bodyW
+
+section topW
+variable {α : Type} {κ ν : Type} [DecidableEq κ]
+
+/-- **The event trace with the `with` statement spelled out.**  The generator object whose body
+enters and leaves `with opener() as fileobj:` through contextlib's protocol over the opener automata,
+driven by a consumer, produces exactly `parseTrace`. -/
+theorem driveW_eq_parseTrace (s : Src α) (cast : CastArgE κ ν) (vv : ValView ν)
+    (scan : Scanner α (List (κ × ν))) (limit : Option Nat) (fuel : Nat)
+    (hf : (findIterActs s.kindOk scan s.chunk s.reads).length < fuel) :
+    drive (Gen.genObj .generator (parseAutoW s cast vv scan)) fuel limit (.unstarted .start) []
+      = parseTrace s cast vv scan limit := by
+  obtain ⟨f, rfl⟩ : ∃ f, fuel = f + 1 := ⟨fuel - 1, by omega⟩
+  by_cases hl : limit = some 0
+  · subst hl
+    simp [drive, Gen.genObj, Gen.genStep, parseTrace]
+  · unfold parseTrace
+    simp only [hl, ↓reduceIte]
+    by_cases hargs : (s.own || s.fileObj) = true
+    · simp only [hargs, Bool.not_true, Bool.false_eq_true, ↓reduceIte]
+      -- the valid-cast part, common to `.dict` and `.fn`
+      have main : ∀ c : CastArgE κ ν, c.valid = true →
+          drive (Gen.genObj .generator (parseAutoW s c vv scan)) (f + 1) limit (.unstarted .start) []
+            = if !s.patternOk then [.raised .typeError] else
+              if s.own then
+                match s.openFails with
+                | some e => [.raised e]
+                | none => .opened :: consume (applyCastE vv c) true limit (findIterActs s.kindOk scan s.chunk s.reads)
+              else consume (applyCastE vv c) false limit (findIterActs s.kindOk scan s.chunk s.reads) := by
+        intro c hc
+        by_cases hp : s.patternOk = true
+        · simp only [hp, Bool.not_true, Bool.false_eq_true, ↓reduceIte]
+          by_cases hown : s.own = true
+          · simp only [hown, ↓reduceIte]
+            cases ho : s.openFails with
+            | some e =>
+              cases c with
+              | invalid => simp [CastArgE.valid] at hc
+              | dict d =>
+                simp [drive, hl, Gen.genObj, Gen.genStep, parseAutoW, hargs, hp, hown, ho, cmEnter, openerAuto,
+                  Gen.settle, pep479_excOf, errOf_excOf]
+              | fn g =>
+                simp [drive, hl, Gen.genObj, Gen.genStep, parseAutoW, hargs, hp, hown, ho, cmEnter, openerAuto,
+                  Gen.settle, pep479_excOf, errOf_excOf]
+            | none =>
+              have h1 : drive (Gen.genObj .generator (parseAutoW s c vv scan)) (f + 1) limit (.unstarted .start) []
+                  = drive (Gen.genObj .generator (parseAutoW s c vv scan)) (f + 1) limit
+                      (.suspended (.at (.suspended .inside) (findIterActs s.kindOk scan s.chunk s.reads))) [.opened] := by
+                cases c with
+                | invalid => simp [CastArgE.valid] at hc
+                | dict d =>
+                  simp [drive, hl, Gen.genObj, Gen.genStep, parseAutoW, hargs, hp, hown, ho, cmEnter, openerAuto, Gen.settle]
+                | fn g =>
+                  simp [drive, hl, Gen.genObj, Gen.genStep, parseAutoW, hargs, hp, hown, ho, cmEnter, openerAuto, Gen.settle]
+              rw [h1, driveW_suspended s c vv scan _ (f + 1) limit _ hf hl, hown]
+              rfl
+          · have hown' : s.own = false := by simpa using hown
+            have hfo : s.fileObj = true := by simpa [hown'] using hargs
+            simp only [hown', Bool.false_eq_true, ↓reduceIte]
+            have h1 : drive (Gen.genObj .generator (parseAutoW s c vv scan)) (f + 1) limit (.unstarted .start) []
+                = drive (Gen.genObj .generator (parseAutoW s c vv scan)) (f + 1) limit
+                    (.suspended (.at (.suspended .inside) (findIterActs s.kindOk scan s.chunk s.reads))) [] := by
+              cases c with
+              | invalid => simp [CastArgE.valid] at hc
+              | dict d =>
+                simp [drive, hl, Gen.genObj, Gen.genStep, parseAutoW, hargs, hp, hown', hfo, cmEnter, openerAuto, Gen.settle]
+              | fn g =>
+                simp [drive, hl, Gen.genObj, Gen.genStep, parseAutoW, hargs, hp, hown', hfo, cmEnter, openerAuto, Gen.settle]
+            rw [h1, driveW_suspended s c vv scan _ (f + 1) limit _ hf hl, hown']
+            rfl
+        · have hp' : s.patternOk = false := by simpa using hp
+          cases c with
+          | invalid => simp [CastArgE.valid] at hc
+          | dict d =>
+            simp [drive, hl, Gen.genObj, Gen.genStep, parseAutoW, hargs, hp', Gen.settle, pep479_excOf, errOf_excOf]
+          | fn g =>
+            simp [drive, hl, Gen.genObj, Gen.genStep, parseAutoW, hargs, hp', Gen.settle, pep479_excOf, errOf_excOf]
+      cases cast with
+      | invalid =>
+        simp [drive, hl, Gen.genObj, Gen.genStep, parseAutoW, hargs, Gen.settle, pep479_excOf, errOf_excOf]
+      | dict d => exact main (.dict d) rfl
+      | fn g => exact main (.fn g) rfl
+    · have hargs' : (s.own || s.fileObj) = false := by simpa using hargs
+      simp only [hargs', Bool.not_false, ↓reduceIte]
+      simp [drive, hl, Gen.genObj, Gen.genStep, parseAutoW, hargs', Gen.settle, pep479_excOf, errOf_excOf]
+
+end topW
 
 end Parse
